@@ -116,7 +116,7 @@ func c14Fixed() [][]byte {
 		if strings.HasPrefix(cls, "\x07AnyList") {
 			inst = append(inst, 0x91)
 		}
-		for _, form := range []int{0, 1, 2, 3, 4, 5} {
+		for _, form := range []int{0, 1, 2, 3, 4, 5, 6, 7} {
 			var b []byte
 			switch form {
 			case 0: // fixed untyped list of one
@@ -129,8 +129,12 @@ func c14Fixed() [][]byte {
 				b = append(append(append([]byte{'H', 0x01, 'k'}, def...), inst...), 0x51, 0x90, 'Z')
 			case 4: // two levels up
 				b = append(append(append([]byte{0x7a, 0x91, 0x79}, def...), inst...), 0x51, 0x90)
-			default: // the definition hoisted in front of the list
+			case 5: // the definition hoisted in front of the list
 				b = append(append(append(append([]byte{}, def...), 0x79), inst...), 0x51, 0x90)
+			case 6: // ... and the list referred to again by the next value on the stream
+				b = append(append(append(append([]byte{}, def...), 0x79), inst...), 0x51, 0x90, 0x51, 0x90)
+			default:
+				b = append(append(append([]byte{0x79}, def...), inst...), 0x51, 0x90, 0x51, 0x90, 0x51, 0x91)
 			}
 			out = append(out, b)
 		}
@@ -731,9 +735,10 @@ func TestC14(t *testing.T) {
 	for done < total {
 		jobs := make([]job, 0, batch)
 		for len(jobs) < batch && done+len(jobs) < total {
-			if k := done + len(jobs); k < fixedN*len(c14Entries) {
-				// the fixed inputs (examples, Java strings, depth bombs) verbatim through every entry point
-				jobs = append(jobs, job{entry: k % len(c14Entries), tm: k % 3, payload: g.corpus[k/len(c14Entries)], origin: "fixed"})
+			if k := done + len(jobs); k < fixedN*len(c14Entries)*3 {
+				// the fixed inputs (examples, Java strings, depth bombs) verbatim through every entry point with
+				// every type map
+				jobs = append(jobs, job{entry: k % len(c14Entries), tm: k / len(c14Entries) % 3, payload: g.corpus[k/(3*len(c14Entries))], origin: "fixed"})
 				continue
 			}
 			b, origin := g.next()
